@@ -29,11 +29,13 @@ fn space_for(tier: Tier) -> Space {
             s.ast("K", 4, 64).ast("Q", 2, 64).ast("CL", 3, 64).ast("G", 5, 64).ast("AN", 3, 64).ast("U", 3, 64);
             s.tok("T", &gen::T_FULL, 3, 64).tok("T0", &gen::T_CORE, 3, 64);
             s.list("flagstrings", 1 + 11 + 121 + 1331, 128);
+            s.list("triggers", crate::checks::c08::triggers().len() as u64, 16);
         }
         Tier::Thorough => {
             s.ast("K", 5, 64).ast("Q", 3, 64).ast("CL", 3, 64).ast("G", 6, 64).ast("AN", 4, 64).ast("U", 4, 64).ast("CI", 3, 64);
             s.tok("T", &gen::T_FULL, 3, 64).tok("T0", &gen::T_CORE, 5, 64);
             s.list("flagstrings", 1 + 11 + 121 + 1331, 128);
+            s.list("triggers", crate::checks::c08::triggers().len() as u64, 16);
         }
     }
     s
@@ -185,6 +187,23 @@ impl Check for Crash {
                     }
                     j.out.sample(J::obj(vec![("token_string", J::s(text)), ("dialects", J::s("xpath, xsd")), ("flags", J::s(format!("{:?}", FLAG_MENU)))]));
                 });
+            }
+            SegKind::List { name: "triggers" } => {
+                let t = crate::checks::c08::triggers();
+                let inputs: Vec<String> = ["", "a", "aa", "ab", "aab", "abab", "1", "a1", "b\na", "aaaa"].iter().map(|s| s.to_string()).collect();
+                for i in lo..hi {
+                    let text = &t[i as usize];
+                    for flags in FLAG_MENU_AST {
+                        j.out.pin(&|| format!("compile {:?} {:?}", text, flags));
+                        let c = imp::compile(text, flags, false);
+                        j.obs(&Case::new(&scope_name, text, flags).api("compile"), &c, &[EK::Syntax, EK::InvalidFlags]);
+                        if let Out::Ok(re) = c {
+                            j.out.inc("nontrivial");
+                            drive(&mut j, &scope_name, text, flags, false, &re, &inputs, &["<$0>", "$1\\$"], usize::MAX);
+                        }
+                    }
+                    j.out.sample(J::obj(vec![("trigger_pattern", J::s(text))]));
+                }
             }
             SegKind::List { .. } => {
                 let inputs: Vec<String> = ["", "a", "A\nb"].iter().map(|s| s.to_string()).collect();
